@@ -389,6 +389,114 @@ theorem run_empty_consumes_nothing (G : GoodHash H) (fuel : Nat) (hs : List α) 
 
 end sound
 
+/-! ### the hashes a successful run consumes are determined by the flags and the tree -/
+
+section determined
+variable [DecidableEq α] {H : HashFns ι α}
+
+/-- the related hashes left over by a run are a suffix of the ones it was given -/
+theorem run_ms_suffix : ∀ (fuel : Nat) (hs : List α) (fs : List Nat) (ms : List α),
+    ∃ c, ms = c ++ (rootByProofF H fuel hs fs ms).ms := by
+  intro fuel
+  induction fuel with
+  | zero => intro hs fs ms; exact ⟨[], rfl⟩
+  | succ n ih =>
+    intro hs fs ms
+    cases fs with
+    | nil => rw [run_nil_flags]; exact ⟨[], rfl⟩
+    | cons f fs' =>
+      cases hs with
+      | nil => rw [run_nil_hashes]; exact ⟨[], rfl⟩
+      | cons h hs' =>
+        rcases flag_cases f with rfl | rfl | rfl | h3
+        · rw [run_assist]; exact ⟨[], rfl⟩
+        · rw [run_parent]
+          simp only
+          obtain ⟨c1, h1⟩ := ih (h :: hs') fs' ms
+          generalize rootByProofF H n (h :: hs') fs' ms = a at h1
+          obtain ⟨c2, h2⟩ := ih a.hs a.fs a.ms
+          exact ⟨c1 ++ c2, by rw [List.append_assoc, ← h2]; exact h1⟩
+        · cases ms with
+          | nil => rw [run_leaf_nil]; exact ⟨[], rfl⟩
+          | cons m ms' =>
+            by_cases hm : h = m
+            · subst hm; rw [run_leaf_hit]; exact ⟨[h], rfl⟩
+            · rw [run_leaf_miss H _ _ _ hm]; exact ⟨[], rfl⟩
+        · rw [run_other H _ _ h3]; exact ⟨[], rfl⟩
+
+/-- Two runs with the SAME flags that both return the hash of the same tree consumed the same
+    hashes (and the same number of flags), whatever the hash lists were. -/
+theorem run_determined (G : GoodHash H) : ∀ (fuel : Nat) (hs1 hs2 : List α) (fs : List Nat) (ms1 ms2 : List α)
+    (t : MTree α) (l : List ι), Built H t l →
+    (∀ m ∈ ms1, ∃ x, H.leafH x = m) → (∀ m ∈ ms2, ∃ x, H.leafH x = m) →
+    (rootByProofF H fuel hs1 fs ms1).hash = t.hash → (rootByProofF H fuel hs2 fs ms2).hash = t.hash →
+    ∃ c, hs1 = c ++ (rootByProofF H fuel hs1 fs ms1).hs ∧ hs2 = c ++ (rootByProofF H fuel hs2 fs ms2).hs ∧
+      (rootByProofF H fuel hs1 fs ms1).fs = (rootByProofF H fuel hs2 fs ms2).fs := by
+  intro fuel
+  induction fuel with
+  | zero =>
+    intro hs1 hs2 fs ms1 ms2 t l hB _ _ h1 _
+    exact absurd h1 (hB.hash_ne_empty G)
+  | succ n ih =>
+    intro hs1 hs2 fs ms1 ms2 t l hB hm1 hm2 h1 h2
+    cases fs with
+    | nil => rw [run_nil_flags] at h1; exact absurd h1 (hB.hash_ne_empty G)
+    | cons f fs' =>
+      cases hs1 with
+      | nil => rw [run_nil_hashes] at h1; exact absurd h1 (hB.hash_ne_empty G)
+      | cons g1 hs1' =>
+        cases hs2 with
+        | nil => rw [run_nil_hashes] at h2; exact absurd h2 (hB.hash_ne_empty G)
+        | cons g2 hs2' =>
+          rcases flag_cases f with rfl | rfl | rfl | h3
+          · rw [run_assist] at h1 h2 ⊢; rw [run_assist]
+            simp only at h1 h2
+            subst h1; subst h2
+            exact ⟨[t.hash], rfl, rfl, rfl⟩
+          · rw [run_parent] at h1 h2 ⊢; rw [run_parent]
+            simp only at h1 h2 ⊢
+            generalize ha1 : rootByProofF H n (g1 :: hs1') fs' ms1 = a1 at h1 ⊢
+            generalize ha2 : rootByProofF H n (g2 :: hs2') fs' ms2 = a2 at h2 ⊢
+            cases hB with
+            | leaf x => exact absurd h1.symm (G.leaf_ne_node _ _ _)
+            | node hL hR =>
+              obtain ⟨e1, e2⟩ := G.node_inj _ _ _ _ h1
+              obtain ⟨e3, e4⟩ := G.node_inj _ _ _ _ h2
+              obtain ⟨c1, p1, p2, p3⟩ := ih (g1 :: hs1') (g2 :: hs2') fs' ms1 ms2 _ _ hL hm1 hm2
+                (by rw [ha1]; exact e1) (by rw [ha2]; exact e3)
+              rw [ha1] at p1 p3; rw [ha2] at p2 p3
+              have hma1 : ∀ m ∈ a1.ms, ∃ x, H.leafH x = m := by
+                obtain ⟨c, hc⟩ := run_ms_suffix (H := H) n (g1 :: hs1') fs' ms1
+                rw [ha1] at hc
+                exact fun m hm => hm1 m (by rw [hc]; simp [hm])
+              have hma2 : ∀ m ∈ a2.ms, ∃ x, H.leafH x = m := by
+                obtain ⟨c, hc⟩ := run_ms_suffix (H := H) n (g2 :: hs2') fs' ms2
+                rw [ha2] at hc
+                exact fun m hm => hm2 m (by rw [hc]; simp [hm])
+              rw [← p3] at e4 ⊢
+              obtain ⟨c2, q1, q2, q3⟩ := ih a1.hs a2.hs a1.fs a1.ms a2.ms _ _ hR hma1 hma2 e2 e4
+              refine ⟨c1 ++ c2, ?_, ?_, q3⟩
+              · rw [List.append_assoc, ← q1]; exact p1
+              · rw [List.append_assoc, ← q2]; exact p2
+          · cases ms1 with
+            | nil => rw [run_leaf_nil] at h1; exact absurd h1 (hB.hash_ne_empty G)
+            | cons m1 ms1' =>
+              cases ms2 with
+              | nil => rw [run_leaf_nil] at h2; exact absurd h2 (hB.hash_ne_empty G)
+              | cons m2 ms2' =>
+                by_cases e1 : g1 = m1
+                · by_cases e2 : g2 = m2
+                  · subst e1; subst e2
+                    rw [run_leaf_hit] at h1 h2 ⊢; rw [run_leaf_hit]
+                    simp only at h1 h2
+                    subst h1; subst h2
+                    exact ⟨[t.hash], rfl, rfl, rfl⟩
+                  · rw [run_leaf_miss H _ _ _ e2] at h2; exact absurd h2 (hB.hash_ne_empty G)
+                · rw [run_leaf_miss H _ _ _ e1] at h1; exact absurd h1 (hB.hash_ne_empty G)
+          · rw [run_other H _ _ h3] at h1; exact absurd h1 (hB.hash_ne_empty G)
+
+end determined
+
 /-! ### the free hash algebra: a witness that the hash assumptions are satisfiable -/
 
 inductive FH where
